@@ -435,6 +435,7 @@ fn field_kind(k: usize) -> V {
         16 => V::PartyName,
         17 => V::List(vec![V::PolicyName, V::Bytes(vec![1])]),
         18 => V::Map(vec![(V::PolicyName, V::PartyName)]),
+        19 => V::Str("café 5€ 😀".into()),
         _ => V::List(vec![V::Rec(vec![V::Int(1)]), V::Rec(vec![V::Int(2)])]),
     }
 }
@@ -443,7 +444,7 @@ fn gen_shape(c: &mut Chooser) -> (V, Pos, usize) {
     let pos = *c.pick(&[Pos::Datum, Pos::MintRedeemer, Pos::InputRedeemer]);
     let order = c.choose(3);
     let nfields = c.choose(7);
-    let fields: Vec<V> = (0..nfields).map(|_| field_kind(c.choose(20))).collect();
+    let fields: Vec<V> = (0..nfields).map(|_| field_kind(c.choose(21))).collect();
     let wrapper = c.choose(3);
     let v = match wrapper {
         0 => V::Rec(fields),
@@ -542,7 +543,7 @@ impl Prop for C09 {
         // values written with an operator or a name, in every position: a negated parameter, a policy name, a party
         // name - bare in a record, in a variant case, in a list, as map key and value
         for pos in POSITIONS {
-            for leaf in [V::NegParamInt(5), V::NegParamInt(-7), V::PolicyName, V::PartyName] {
+            for leaf in [V::NegParamInt(5), V::NegParamInt(-7), V::PolicyName, V::PartyName, V::Str("café 5€ 😀".into()), V::Str("ß".into())] {
                 let shapes = [
                     V::Rec(vec![V::Int(1), leaf.clone()]),
                     V::Var { cases: 3, case: 2, fields: vec![leaf.clone()] },
